@@ -7,28 +7,30 @@ import (
 )
 
 // NoteKey records the first-insertion order of a pointer map key so that
-// RangeKeys can order such keys deterministically.
+// RangeKeys can order such keys deterministically (every insertion and lookup
+// of a pointer-keyed map is routed through it by the instrumenter).
 //
 //go:norace
 func NoteKey[K comparable](k K) K {
 	if S != nil {
-		if _, ok := S.ptrOrder[any(k)]; !ok {
-			S.ptrOrder[any(k)] = len(S.ptrOrder)
-		}
+		ptrOrd(any(k))
 	}
 	return k
 }
 
 //go:norace
 func ptrOrd(k any) int {
-	if o, ok := S.ptrOrder[k]; ok {
-		return o
+	for i := 0; i < S.nptr; i++ {
+		if S.ptrKeys[i] == k {
+			return i
+		}
 	}
-	// Unknown pointer: give it the next number (deterministic only if the
-	// instrumenter noted every insertion; counted so that a miss is visible).
-	S.Probes["simrt.unnoted_ptr_key"]++
-	S.ptrOrder[k] = len(S.ptrOrder)
-	return S.ptrOrder[k]
+	if S.nptr >= maxPtrKeys {
+		panic("simrt: too many pointer map keys")
+	}
+	S.ptrKeys[S.nptr] = k
+	S.nptr++
+	return S.nptr - 1
 }
 
 // RangeKeys returns the keys of m in an order chosen by the PRNG: canonical
